@@ -329,6 +329,21 @@ def r6(p, rep):
             rep.add("C14.R6", key, r.site, ok, f"{r.name} <- {norm(prim)[:60]}" if ok else f"the {fw} entry `{r.name}` is built on `{norm(prim)[:70]}`, which is not the `{kind}` member of the scatter family (family words found: {sorted(k for k, v in has.items() if v)}{', negated updates' if neg else ''})")
 
 
+def r7(p, rep, rid="C14.R7"):
+    rep.rule(rid, "a function created in a loop that outlives the iteration does not read the loop's variables late (each table entry keeps its own operation)", "closure capture lint (B023: disabled in the project's ruff.toml)", floor=3)
+    n = 0
+    for f in p.funcs.values():
+        if not isinstance(f.node, (ast.FunctionDef, ast.AsyncFunctionDef)) or any(f.module.name == m for m in common.OFF_PATH_MODULES):
+            continue
+        k, hits = common.late_binding_closures(f.node)
+        n += k
+        for fn, names, how in hits:
+            rep.violation(rid, f"{f.qualname}:closure:{','.join(names)}", f"{f.module.rel}:{fn.lineno}", f"`{norm(fn)[:60]}` is created in a loop, reads {names} when it is CALLED and is {how}: every copy sees the value of the last iteration (e.g. set / add / subtract all end up doing the last operation)")
+        if k and not hits:
+            rep.ok(rid, f"{f.qualname}:closures-in-loops", f.loc, f"{k} closure(s) created in a loop read loop variables but are consumed within the same iteration")
+    rep.info["closures_in_loops"] = n
+
+
 def run(p, rep, tier):
     r1(p, rep)
     r2(p, rep)
@@ -337,5 +352,6 @@ def run(p, rep, tier):
     r4(p, rep)
     r5(p, rep)
     r6(p, rep)
+    r7(p, rep)
     rep.assume("np.put flattens and cycles its values; ufunc.at, jnp .at[].set/add, torch.index_put_, tf.tensor_scatter_nd_* and x[idx] = v broadcast or require equal shapes")
     rep.info["undecided"] = "ravel arithmetic, accumulation of duplicates, untouched elements and get_at read-back are value-level and not decided"
